@@ -228,7 +228,7 @@ def build_trace(res):
         h = job["assets"][n]
         overflow = overflow or not cd.get("ex", True) and False
         entry = {"name": n, "h": [dict(x, par=x.get("par", 0)) for x in h],
-                 "cd": {k: cd[k] for k in ("fr", "lab", "yr", "bal", "ins", "outs", "intras", "ppu")},
+                 "cd": dict({k: cd[k] for k in ("fr", "lab", "yr", "bal", "ins", "outs", "intras", "ppu")}, fr_all=cd.get("fr_all") or [], has_all=cd.get("fr_all") is not None),
                  "doc": fulldoc["assets"][n] if fulldoc else {"present": False, "ins": [], "outs": [], "intras": [], "summary": [], "balances": [], "totals": [], "avg": [0, 1], "detail": []}}
         tr["as"].append(entry)
         tr["md"].append([month_day(x) for x, _p in expand(h)])
